@@ -290,8 +290,10 @@ def process(run, b, consts, cases, asts, stream):
         if bf[1:] != af[1:] or (isinstance(o2, bytes) and o2 != o1):
             vals = pairs_from(bf[1])
             strs = [v for (n, v) in vals]
-            long_line = any(len(l) > maxline - 2 for l in o1.split(b"\n"))
-            cls = "inline_comment" if any(has_inline(v) for v in strs) else ("long_line" if long_line else "other")
+            # cause first: a listing row (one-line OR continuation form) longer than the parser's line buffer is split by fgets,
+            # whatever the value holds (known finding K1); only then the inline-comment class
+            long_line = any(len(l) > maxline - 1 for l in o1.split(b"\n"))
+            cls = "long_line" if long_line else ("inline_comment" if any(has_inline(v) for v in strs) else "other")
             changed = [n.decode("latin1") for (n, v), (n2, v2) in zip(vals, pairs_from(af[1])) if v != v2]
             run.violation("conf_roundtrip:%s" % cls, "spec_violation",
                           "`snoopyctl conf` output written back as the configuration file changes %s" % (", ".join(changed) or "the listing"),
